@@ -50,14 +50,16 @@ private theorem init_inv (c : Cfg) (t0 : Int) (pids : List Pid) (layers : List (
 applied at `start + ts` (`due`). -/
 theorem timestep_is_interval (c : Cfg) (hb : PosBeh c.beh) (t0 : Int) (pids : List Pid)
     (hnd : pids.Nodup) (layers : List (List Sid)) (store : Store) (calls : List (Nat × Bool))
-    (hpos : ∀ cf ∈ calls, 0 < cf.1) (s' : St)
+    (s' : St)
     (hrun : runCalls c calls (init c t0 pids layers store) = some s')
     (p : Pid) (f : Front) (hp : (p, f) ∈ s'.fronts)
     (n : Nat) (g start ts due : Int) (view : Store) (u : Upd)
     (hev : Ev.invoke p n g start ts due view u ∈ s'.log) : ts = due - start := by
-  have h := runCalls_preserves c hb Paired (fun s t hp => hp)
-    (fun endT s force hp hinv hlt => iter_paired c hb endT s force hp hinv hlt)
-    calls _ s' hrun (init_paired c t0 pids layers store hnd) (init_inv c t0 pids layers store) hpos
+  have h := runCalls_preserves0 c hb Paired (fun s t hp => hp)
+    (fun endT s force hp hinv _ => iter_paired' c hb endT s force hp hinv)
+    (fun s hp hinv _ => iter_paired' c hb s.gt s true hp hinv)
+    calls _ s' hrun (init_paired c t0 pids layers store hnd) (init_inv c t0 pids layers store)
+    (init_noPending c t0 pids layers store)
   have := accepted_invokes p s'.log _ _ (h.1.2 (p, f) hp) (by simp) n g start ts due view u hev
   omega
 
@@ -106,14 +108,18 @@ over while its update condition was false) ended, covers `[start, start + ts]` w
 nothing is simulated twice or skipped. -/
 theorem intervals_contiguous (c : Cfg) (hb : PosBeh c.beh) (t0 : Int) (pids : List Pid)
     (hnd : pids.Nodup) (layers : List (List Sid)) (store : Store) (calls : List (Nat × Bool))
-    (hpos : ∀ cf ∈ calls, 0 < cf.1) (s' : St)
+    (s' : St)
     (hrun : runCalls c calls (init c t0 pids layers store) = some s') :
     ∀ pf ∈ s'.fronts, contigLog pf.1 t0 s'.log = some pf.2.time := by
-  have h := runCalls_preserves c hb (fun s => Paired s ∧ Contig t0 s) (fun s t hp => hp)
+  have h := runCalls_preserves0 c hb (fun s => Paired s ∧ Contig t0 s) (fun s t hp => hp)
     (fun endT s force hp hinv hlt =>
       ⟨iter_paired c hb endT s force hp.1 hinv hlt, iter_contig c hb t0 endT force s hinv hlt hp.1.1 hp.2⟩)
+    (fun s hp hinv hnp =>
+      ⟨iter_paired' c hb s.gt s true hp.1 hinv,
+       iter_contig' c hb t0 s.gt true s hinv (Int.le_refl _)
+         (by rw [(iter_at_end c hb s hinv hnp).1]; exact Int.le_refl _) hp.1.1 hp.2⟩)
     calls _ s' hrun ⟨init_paired c t0 pids layers store hnd, init_contig c t0 pids layers store⟩
-    (init_inv c t0 pids layers store) hpos
+    (init_inv c t0 pids layers store) (init_noPending c t0 pids layers store)
   exact h.1.2
 
 /-- **The timesteps handed to a process sum to the simulated time elapsed for it**: timesteps of
@@ -122,13 +128,13 @@ its entry to the time it has been simulated to; each call in the log starts wher
 stands (`start`), so the intervals tile that distance. -/
 theorem timesteps_sum_to_elapsed (c : Cfg) (hb : PosBeh c.beh) (t0 : Int) (pids : List Pid)
     (hnd : pids.Nodup) (layers : List (List Sid)) (store : Store) (calls : List (Nat × Bool))
-    (hpos : ∀ cf ∈ calls, 0 < cf.1) (s' : St)
+    (s' : St)
     (hrun : runCalls c calls (init c t0 pids layers store) = some s')
     (p : Pid) (f : Front) (hp : (p, f) ∈ s'.fronts) :
     handed p s'.log + carried p s'.log = f.time - t0 ∧
     ∀ pre post n g start ts due view u, s'.log = pre ++ Ev.invoke p n g start ts due view u :: post →
       contigLog p t0 pre = some start ∧ start + ts = due ∧ 0 < ts := by
-  have h := intervals_contiguous c hb t0 pids hnd layers store calls hpos s' hrun (p, f) hp
+  have h := intervals_contiguous c hb t0 pids hnd layers store calls s' hrun (p, f) hp
   refine ⟨(ck_sum p s'.log t0 f.time h).symm, ?_⟩
   intro pre post n g start ts due view u hsplit
   unfold contigLog at h
@@ -139,12 +145,12 @@ theorem timesteps_sum_to_elapsed (c : Cfg) (hb : PosBeh c.beh) (t0 : Int) (pids 
 /-- after `update()` the sum is exactly the global time elapsed since entry -/
 theorem timesteps_sum_after_update (c : Cfg) (hb : PosBeh c.beh) (t0 : Int) (pids : List Pid)
     (hnd : pids.Nodup) (layers : List (List Sid)) (store : Store) (calls : List (Nat × Bool))
-    (hpos : ∀ cf ∈ calls, 0 < cf.1) (s' : St)
+    (s' : St)
     (hrun : runCalls c calls (init c t0 pids layers store) = some s')
     (hdrained : checkComplete s' = true)
     (p : Pid) (f : Front) (hp : (p, f) ∈ s'.fronts) :
     handed p s'.log + carried p s'.log = s'.gt - t0 := by
-  have h := (timesteps_sum_to_elapsed c hb t0 pids hnd layers store calls hpos s' hrun p f hp).1
+  have h := (timesteps_sum_to_elapsed c hb t0 pids hnd layers store calls s' hrun p f hp).1
   unfold checkComplete at hdrained
   rw [List.all_eq_true] at hdrained
   have := hdrained (p, f) hp
